@@ -1,7 +1,10 @@
 package rigs
 
 import (
+	"bufio"
+	"crypto/tls"
 	"fmt"
+	"io"
 	"net"
 	"net/http"
 	"sort"
@@ -62,6 +65,7 @@ type rclient struct {
 	notBefore int // op index after whose completion this client may connect (battery), -1 = any time
 	closeHdr  bool
 	battery   bool
+	tlsNeed   int // TLS mode: bytes the client had put on the wire once its request was written (-1 before)
 }
 
 type reloadRig struct {
@@ -69,6 +73,7 @@ type reloadRig struct {
 	c   *sim.Ctl
 	st  *sim.Stream
 	two bool // two listen addresses
+	tls bool // the sites are HTTPS sites (self-signed): every client is a crypto/tls client
 
 	vers     []verSpec
 	ops      []*opRec
@@ -101,6 +106,9 @@ func (r *reloadRig) siteAddr(h string, ver verSpec) (addr, bind string) {
 	if r.two && h == "c.test" {
 		bind = "127.0.0.2"
 	}
+	if r.tls {
+		return "https://" + h + ":" + port, bind
+	}
 	return "http://" + h + ":" + port, bind
 }
 
@@ -110,6 +118,9 @@ func (r *reloadRig) configText(v int) string {
 	for i, h := range ver.hosts {
 		addr, bind := r.siteAddr(h, ver)
 		fmt.Fprintf(&b, "%s {\n\tbind %s\n\tsimnet %s\n", addr, bind, ver.label)
+		if r.tls {
+			b.WriteString("\ttls self_signed {\n\t\tno_redirect\n\t}\n")
+		}
 		if i == 0 {
 			fmt.Fprintf(&b, "\tsimcb %s\n", ver.label)
 		}
@@ -167,6 +178,8 @@ func runReload(c *sim.Ctl) {
 	st := r.st
 	r.two = st.Draw(5) == 4 && Applied("maporder") // listener order must be reproducible
 	r.faults = st.Draw(2) == 1
+	r.tls = st.Draw(4) == 0
+	c.Params["tls"] = r.tls
 	nops := 1 + st.Draw(6)
 	nclients := 2 + st.Draw(9)
 	c.MaxSteps = 600
@@ -331,7 +344,7 @@ func (r *reloadRig) nextCb() int { r.cbSeq++; return r.cbSeq }
 func (r *reloadRig) addClient(host string, park bool, notBefore int, battery bool) {
 	st := r.st
 	id := len(r.clients)
-	cl := &rclient{id: id, host: host, park: park, notBefore: notBefore, battery: battery, connStep: -1}
+	cl := &rclient{id: id, host: host, park: park, notBefore: notBefore, battery: battery, connStep: -1, tlsNeed: -1}
 	cl.closeHdr = st.Draw(2) == 0
 	cl.doAbort = !battery && r.faults && st.Draw(8) == 0
 	req := fmt.Sprintf("GET /p?id=c%d HTTP/1.1\r\nHost: %s\r\nX-Req: c%d\r\n", id, host, id)
@@ -431,7 +444,7 @@ func (r *reloadRig) events(add func(sim.Event)) {
 			add(sim.Event{Key: fmt.Sprintf("client.connect/c%03d", cl.id), Actor: actor, Fire: func() { r.connect(cl) }})
 			continue
 		}
-		if cl.next < len(cl.segs) {
+		if cl.next < len(cl.segs) && !r.tls {
 			add(sim.Event{Key: fmt.Sprintf("client.send/c%03d", cl.id), Actor: actor, Fire: func() {
 				cl.end.Send(cl.segs[cl.next])
 				cl.next++
@@ -465,14 +478,91 @@ func (r *reloadRig) connect(cl *rclient) {
 		return
 	}
 	cl.end = end
+	if r.tls {
+		r.runTLSClient(cl)
+		return
+	}
 	end.OnData = func() { r.onData(cl) }
+}
+
+// runTLSClient drives one HTTPS client: handshake, then (at a moment the
+// controller chooses) the request, then the response. Record sizes of TLS
+// are not reproducible (signatures), so both directions are opaque.
+func (r *reloadRig) runTLSClient(cl *rclient) {
+	c := r.c
+	end := cl.end
+	end.Opaque = true
+	end.Peer().Opaque = true
+	var req []byte
+	for _, sg := range cl.segs {
+		req = append(req, sg...)
+	}
+	go func() {
+		fail := func(why string) {
+			if cl.done || cl.aborted || r.cleanup {
+				return
+			}
+			cl.next = len(cl.segs)
+			r.judgeIncomplete(cl, why)
+			cl.done = true
+			end.Close()
+		}
+		tc := tls.Client(end, &tls.Config{InsecureSkipVerify: true, ServerName: cl.host, NextProtos: []string{"http/1.1"},
+			Rand: seededRand{c.T.Stream(fmt.Sprintf("tlsrand-c%d", cl.id))},
+			Time: func() time.Time { return time.Date(2000, 1, 1, 0, 0, 1, 0, time.UTC) }})
+		if err := tc.Handshake(); err != nil {
+			// a name that one of the configurations allowed to answer does not serve has no certificate there
+			allowed, _ := r.allowedVersions(cl)
+			for v := range allowed {
+				if st, _ := r.expect(v, cl.host); st != 200 && strings.Contains(err.Error(), "remote error") {
+					c.Probe("tls-handshake-refused-for-a-name-not-served")
+					cl.done = true
+					end.Close()
+					return
+				}
+			}
+			fail(fmt.Sprintf("TLS handshake: %v", err))
+			return
+		}
+		c.Probe("tls-handshake-completed")
+		if !r.cleanup && !cl.aborted {
+			// when the request follows the handshake is a scheduling decision
+			c.Park(fmt.Sprintf("hook.tlsclient-send/c%03d", cl.id), fmt.Sprintf("client:%d", cl.id))
+		}
+		if cl.aborted || r.cleanup {
+			return
+		}
+		if _, err := tc.Write(req); err != nil {
+			cl.tlsNeed = end.SentTotal
+			fail(fmt.Sprintf("writing the request: %v", err))
+			return
+		}
+		cl.next = len(cl.segs)
+		cl.tlsNeed = end.SentTotal
+		cl.headTime = c.Now()
+		resp, err := http.ReadResponse(bufio.NewReader(tc), nil)
+		if err != nil {
+			fail(fmt.Sprintf("reading the response: %v", err))
+			return
+		}
+		body, err := io.ReadAll(resp.Body)
+		if err != nil {
+			fail(fmt.Sprintf("reading the response body: %v", err))
+			return
+		}
+		if cl.done || cl.aborted || r.cleanup {
+			return
+		}
+		cl.done = true
+		r.judgeResponse(cl, &sim.Resp{Status: resp.StatusCode, Header: resp.Header, Body: body})
+		tc.Close()
+	}()
 }
 
 func (r *reloadRig) onData(cl *rclient) {
 	if cl.done || cl.aborted {
 		return
 	}
-	c := r.c
 	cl.buf = append(cl.buf, cl.end.Take()...)
 	fin := cl.end.FinSeen() || cl.end.Err() != nil
 	resps, _, err := sim.ParseResponses(cl.buf, []string{"GET"}, fin)
@@ -485,10 +575,14 @@ func (r *reloadRig) onData(cl *rclient) {
 		return
 	}
 	cl.done = true
-	resp := resps[0]
+	r.judgeResponse(cl, resps[0])
 	cl.end.Close()
-	// allowed versions: current at connect time, plus targets of successful
-	// (or still running) reloads whose interval overlaps [connect, now]
+}
+
+// allowedVersions: the configuration current when the client connected, plus
+// the targets of successful (or still running) reloads whose interval
+// overlaps [connect, now].
+func (r *reloadRig) allowedVersions(cl *rclient) (map[int]bool, bool) {
 	allowed := map[int]bool{cl.verAtConn: true}
 	overl := false
 	for _, op := range r.ops[1:] {
@@ -501,6 +595,14 @@ func (r *reloadRig) onData(cl *rclient) {
 		allowed[op.ver] = true
 		overl = true
 	}
+	return allowed, overl
+}
+
+// judgeResponse: the complete response must be the one of a configuration
+// that was allowed to answer this connection.
+func (r *reloadRig) judgeResponse(cl *rclient, resp *sim.Resp) {
+	c := r.c
+	allowed, overl := r.allowedVersions(cl)
 	if overl {
 		c.Probe("request-overlapped-reload")
 	}
@@ -554,6 +656,14 @@ func (r *reloadRig) judgeIncomplete(cl *rclient, why string) {
 	total := 0
 	for _, s := range cl.segs {
 		total += len(s)
+	}
+	if r.tls {
+		// the request head is complete for the server once every byte the client had
+		// sent up to and including its request record has arrived
+		total = cl.tlsNeed
+		if total < 0 {
+			total = 1 << 30
+		}
 	}
 	conn := cl.end.Conn()
 	if conn.Accepted != nil && conn.SrvRecvAtLnClose >= 0 && conn.SrvRecvAtLnClose < total {
